@@ -166,7 +166,7 @@ def run(ctx):
     wl = ["rpu.opswf " + l.split(" ", 1)[1] for l in lines]
     wo, _, _ = common.run_lines_sharded(common.MODEL_EXE, wl)
     for l, o in zip(wl, wo):
-        if not o.startswith("wf="):
+        if not o.startswith("sesmall="):
             continue
         f = dict(x.split("=") for x in o.split(" "))
         ctx.count("theorem-hypothesis wf=%s%s" % (f["wf"], "" if f["wf"] == "1" else " (" + f["why"] + ")"))
